@@ -4,6 +4,8 @@ Ops (floats = decimal value of the IEEE-754 bit pattern, N = None), see lean/SmV
     c2d / c2dci / j2d     the closed forms of distance_utils on attainable ratios a/b
     res ani|jac|ci        the result classes on arbitrary (also illegal) field values -- compared EXACTLY
     mh cont|max|avg|jac   the MinHash wrappers on real sketches of given sizes / overlap
+    cmpani                the compare-level ANI entry points (compare_all_pairs serial and n_jobs=2, compare_serial, compare_serial_containment /
+                          _max_containment / _avg_containment with return_ani=True) on the mh flavour's pairs: withheld -> exactly 0.0
     cls / clsnum          FracMinHashComparison / NumMinHashComparison / PrefetchResult / GatherResult / SearchResult (sketchcomparison.py,
                           search.py) on the same kind of sketch pairs as `mh`; every ANI field, flag and CSV cell
     sia                   MinHash.size_is_accurate: which scipy.stats.binom calls, with which arguments, probability, answer
@@ -146,6 +148,10 @@ def fill(lines):
                 raise common.ToolFailure("ani helper: " + l)
             w[7], w[8] = r["acc"][0], r["acc"][1]
             w[9], w[10] = r["v"].split(",")
+        elif w[0] == "cmpani":
+            if "ref.acc" not in r:
+                raise common.ToolFailure("ani helper: " + l)
+            w[7:] = list(r["ref.acc"]) + [r["ref.c12"], r["ref.c21"], r["ref.mc"], r["ref.j"]]
         elif w[0] == "cls":
             raw = dict(t.split("=", 1) for t in _ask(l).split() if "=" in t)
             if "ref" in raw:            # downsampling to the requested comparison scaled is refused: nothing to paste
@@ -291,6 +297,9 @@ def gen_mh(rng):
         else:
             common_ = rng.randint(0, min(la, lb))
         lines.append(f"mh {kind} {la} {lb} {common_} {scaled} {k} ? ? ? ?")
+        if rng.random() < 0.35:
+            # the same pair through the compare-level ANI entry points (serial, n_jobs=2, containment / max / avg builders)
+            lines.append(f"cmpani {la} {lb} {common_} {scaled} {k} {int(rng.random() < 0.5)} ? ? ? ? ? ?")
     return lines
 
 
@@ -540,6 +549,47 @@ def oracle(case, impl):
                     bad.append((idx, f"C17:at-one:mh-{kind}", f"identical sketches, ani={ani!r}"))
                 if cm == 0 and ani != 0.0:
                     bad.append((idx, f"C17:at-zero:mh-{kind}", f"disjoint sketches, ani={ani!r}"))
+        elif op == "cmpani":
+            if not o.startswith("ok "):
+                bad.append((idx, "C17:compare-ani:adapter", o[:100]))
+                continue
+            acc = r["ref.acc"]
+            ctx = f"[{w[1]} vs {w[2]} hashes, {w[3]} shared, scaled {w[4]}, k {w[5]}; size_is_accurate = {acc}]"
+
+            def entry(path, got, ref):
+                """withheld (None) must be exactly 0.0, a present estimate must be the estimate"""
+                want = ZERO if ref == "N" else ref
+                if got != want:
+                    sig = f"C17:compare-ani:fabricated:{path}" if ref == "N" else f"C17:compare-ani:differs:{path}"
+                    bad.append((idx, sig, f"{path}: matrix entry {f_or_none(got) if got.isdigit() else got!r} but the MinHash-level estimate is "
+                                          f"{'withheld (None): the entry must be 0.0' if ref == 'N' else repr(fl(ref))} {ctx}"))
+            jref = r["ref.j"]
+            for path in ("ser", "ser1", "par"):
+                v = r[path]
+                if v == "-":
+                    continue
+                if jref.startswith("E") or v.startswith("E"):
+                    if jref.startswith("E") != v.startswith("E"):
+                        bad.append((idx, f"C17:compare-ani:error-mismatch:{path}", f"pairwise jaccard_ani: {jref}, matrix builder: {v} {ctx}"))
+                    continue
+                names = {"ser": "compare_all_pairs(n_jobs=None)", "ser1": "compare_serial", "par": "compare_all_pairs(n_jobs=2)"}
+                for e in v.split(","):
+                    entry(names[path], e, jref)
+            c01, c10 = r["cont"].split(",")
+            entry("compare_serial_containment[0][1]", c01, r["ref.c21"])
+            entry("compare_serial_containment[1][0]", c10, r["ref.c12"])
+            for e in r["max"].split(","):
+                entry("compare_serial_max_containment", e, r["ref.mc"])
+            both = r["ref.c12"] != "N" and r["ref.c21"] != "N"
+            for e in r["avg"].split(","):
+                if not both:
+                    entry("compare_serial_avg_containment", e, "N")
+                elif fl(e) != (fl(r["ref.c21"]) + fl(r["ref.c12"])) / 2:
+                    entry("compare_serial_avg_containment", e, bits((fl(r["ref.c21"]) + fl(r["ref.c12"])) / 2))
+            # the MinHash-level estimates themselves: withheld iff a size is inaccurate
+            for nm in ("ref.c12", "ref.c21", "ref.mc"):
+                if (r[nm] == "N") != (acc != "11"):
+                    bad.append((idx, f"C17:withheld-iff-unreliable:{nm}", f"{nm} = {r[nm]} {ctx}"))
         elif op == "cls":
             bad.extend(oracle_cls(idx, w, l, o, r))
         elif op == "clsnum":
